@@ -36,7 +36,7 @@ func (p *propC02) Assumptions() []string {
 	}
 }
 func (p *propC02) ProbeNames() []string {
-	return []string{"narrowed LE", "narrowed BE", "signed-negative narrowed", "array longer than profile", "unterminated string", "unknown/dev field neighbour", "compressed header", "field straddling a chunk"}
+	return []string{"narrowed LE", "narrowed BE", "signed-negative narrowed", "array longer than profile", "unterminated string", "unknown/dev field neighbour", "compressed header", "field straddling a chunk", "definition with >= 170 fields", "record longer than 4096 bytes"}
 }
 
 func (p *propC02) Prepare(seed uint64, tier string) int {
@@ -75,6 +75,9 @@ func (p *propC02) Gen(idx int) *Scenario {
 		o.NData = r.Range(1, 25)
 	}
 	rs := genStream(r, o)
+	if r.Chance(1, 40) {
+		withJumbo(r, rs)
+	}
 	plan := genPlan(r, false, true)
 	return &Scenario{V: 1, Property: "C02", Engine: "rx", Seed: p.seed, Index: idx,
 		Media: []Medium{{ID: "m0", Records: rs}}, Params: map[string]string{"ft": itoa(int(pr.ft))},
@@ -210,6 +213,8 @@ func (p *propC02) Check(sc *Scenario, st *Stats) []Violation {
 		if len(d.Dev) > 0 {
 			st.Probe("unknown/dev field neighbour")
 		}
+		st.ProbeIf(len(d.Fields) >= 170, "definition with >= 170 fields")
+		st.ProbeIf(len(op.Data.Bytes) > 8192, "record longer than 4096 bytes")
 		payload := unhex(op.Data.Bytes)
 		off := 0
 		for _, fd := range d.Fields {
